@@ -79,11 +79,15 @@ def ws_short_names(F):
     """Short names (`Type::method`, `Trait::method`, `module::function`) of every function the workspace defines, now or on the reviewed tree."""
     got = _WS_SHORT.get(id(F))
     if got is None:
-        cur = {short(k, 2) for k in F.fns}
-        cur |= {short(k, 2) for k in getattr(F, "absorbed_fns", {})}
+        def own(k):
+            # methods of std / external traits implemented for workspace types (`Iterator::next`, `Clone::clone`, `From::from`) are not origins
+            m = re.match(r"^<.* as ([A-Za-z_0-9]+)::", k)
+            return m is None or m.group(1).startswith("grin")
+        cur = {short(k, 2) for k in F.fns if own(k)}
+        cur |= {short(k, 2) for k in getattr(F, "absorbed_fns", {}) if own(k)}
         base = set()
         try:
-            base = {short(k, 2) for k in json.load(open(os.path.join(VERIF, "baseline", "functions.json")))}
+            base = {short(k, 2) for k in json.load(open(os.path.join(VERIF, "baseline", "functions.json"))) if own(k)}
         except (OSError, ValueError):
             pass
         got = (cur, base)
@@ -108,9 +112,7 @@ def _stab(F, e_or_atoms):
             m = re.search(r"=(-?\d{1,12})$", a)
             if m:
                 out.add("val:" + m.group(1))
-            elif not a.startswith("item:fn ") and not a.startswith("item:closure "):
-                out.add(a)
-            continue
+            continue  # promoted constants (`None`, a struct literal) and fn items carry no stable origin
         if a.startswith("op:"):
             o = a[3:].replace("WithOverflow", "")
             if o == "Not":
@@ -210,7 +212,7 @@ def summarize(F, key):
             cuts = []
             for c in by_key[ak]:
                 cuts += c["edges"]
-            if cuts and reach(fn, [0], targets, cuts) is None:
+            if cuts and reach(fn, [0], targets, cuts, dead) is None:
                 order.append([ak, bk])
     # args of workspace sink calls, of std sink calls on shared state, and of workspace calls with two parameters of the same type (swap-prone)
     args = {}
@@ -231,6 +233,20 @@ def summarize(F, key):
         conds[bi] = (sig, dict(arms), els)
         if sig not in guards:
             guards.append(sig)
+    # comparisons whose result is used as a value (`let left = x == n - 1;`, `a > b` as the tail expression) are the same tests
+    for bi, b in enumerate(fn["blocks"]):
+        if b["cleanup"] or bi not in live:
+            continue
+        for st in b["st"]:
+            if st["k"] == "assign" and st["rv"]["r"] == "bin" and st["rv"]["op"] in NEGATE:
+                sig = cond_signature(F, ex.rvalue(st["rv"], 0, ()))
+                if sig and sig[0] != "branch" and sig not in guards:
+                    guards.append(sig)
+        t = b["term"]
+        if t["k"] == "call" and any(short(x, 2) in CMP_CALL for x in callee_names(t)):
+            sig = cond_signature(F, ex.call(t, 0, ()))
+            if sig and sig[0] != "branch" and sig not in guards:
+                guards.append(sig)
     guards.sort(key=lambda g: json.dumps(g))
     # silent: conditions a state-changing call is control dependent on whose other outcome carries on normally (not a rejection)
     silent = {}
@@ -284,6 +300,8 @@ def summarize(F, key):
         universe |= set(sig[1]) | set(sig[2])
     if ret:
         universe |= set(ret)
+    elif rty not in ("()", "!"):
+        universe |= set(_stab(F, ex.local(0, 0, ())))
     gates = sorted({c["key"] for c in calls if c["kind"] in GATE or c["sink"]})
     return {"must": must, "order": order, "args": args, "guards": guards, "silent": silent, "assigns": assigns, "ret": ret,
             "consts": const_census(fn), "universe": sorted(universe), "gates": gates}
@@ -563,7 +581,7 @@ class _Cur:
         return self.s[k]
 
 
-def _guard_present(ctx, cs, k, g, closures, helpers):
+def _guard_present(ctx, cs, k, g, closures, helpers, relaxed=False):
     F = ctx.F
     cur_names, _b = ws_short_names(F)
     g1, g2 = _live_atoms(F, g[1]), _live_atoms(F, g[2])
@@ -590,6 +608,8 @@ def _guard_present(ctx, cs, k, g, closures, helpers):
         for x in pool:
             uni |= set(cs.get(x)["universe"])
         return g1 <= uni
+    if not g1 and not g2:
+        return True
     for x in [k] + closures:
         for cg in cs.get(x)["guards"]:
             if cg[0] != g[0]:
@@ -598,7 +618,36 @@ def _guard_present(ctx, cs, k, g, closures, helpers):
                 return True
             if g[0] == "Eq" and g1 <= set(cg[2]) and g2 <= set(cg[1]):
                 return True
-    return _guard_in_helper(ctx, k, [g[0], sorted(g1), sorted(g2)], closures)
+    if _guard_in_helper(ctx, k, [g[0], sorted(g1), sorted(g2)], closures):
+        return True
+    # the comparison moved into a closure (a loop body became the closure of an iterator adaptor): parameter paths do not carry over,
+    # fields, values and operators of each side must; the calls that fed the operands must still be made somewhere in the cluster
+    uni = set()
+    for x in pool:
+        uni |= set(cs.get(x)["universe"])
+    def loc(side):
+        return {a for a in side if not a.startswith("arg") and not a.startswith("call:")}
+    def calls(side):
+        return {a for a in side if a.startswith("call:")}
+    if (calls(g1) | calls(g2)) <= uni:
+        for x in (closures + [k] if relaxed else closures):
+            for cg in cs.get(x)["guards"]:
+                if cg[0] != g[0]:
+                    continue
+                for (s1, s2) in (((cg[1], cg[2]),) + (((cg[2], cg[1]),) if g[0] == "Eq" else ())):
+                    d1, d2 = loc(g1) & set(s1), loc(g2) & set(s2)
+                    # an operand may reach the closure through the adaptor chain (`filter_map(..).find(|h| h > height)`): what is not
+                    # visible on the closure's own operand must be computed elsewhere in the cluster
+                    if (d1 or d2) and (loc(g1) - d1) <= uni and (loc(g2) - d2) <= uni and (d1 or not loc(g1) or d2 == loc(g2)) :
+                        return True
+    # a comparison against nothing stable (`x == None`, `v.len() == 0`) may be written as a predicate call (`x.is_none()`, `v.is_empty()`)
+    if not g1 or not g2:
+        side = g1 or g2
+        for x in pool:
+            for cg in cs.get(x)["guards"]:
+                if side <= (set(cg[1]) | set(cg[2])):
+                    return True
+    return False
 
 
 def check(ctx, prop):
@@ -659,6 +708,11 @@ def check(ctx, prop):
                 continue
             if ctx.ensures(k, pat("re:(?:^|::|<| )%s$" % re.escape(mc)), 2):
                 continue
+            if b.get("closure") and roles.get(role.split("@")[0]):
+                par = roles[role.split("@")[0]]
+                pm = {_short_callee(x) for x in cs.get(par)["must"]} | {_short_callee(x) for cl in _cluster(F, par)[0] for x in cs.get(cl)["must"]}
+                if mc in pm:
+                    continue
             bad += 1
             ctx.record("baseline-must", "R9", k, "%s: every non-error exit passes a successful %s" % (short(k, 2), m), "violation", [where],
                        ["on the confirmed tree every non-error exit of %s passed %s; now an exit avoids it (call dropped, made conditional, or its result ignored)" % (k, m)],
@@ -681,10 +735,11 @@ def check(ctx, prop):
             cuts = []
             for bi, _how in sites:
                 cuts += success_edges(fn, bi)[0]
-            if cuts and reach(fn, [0], targets, cuts) is None:
+            dead_k = error_exit_blocks(fn) if is_result_ty(fn["locals"][0]["s"]) else set()
+            if cuts and reach(fn, [0], targets, cuts, dead_k) is None:
                 continue
             bad += 1
-            p2 = reach(fn, [0], targets, cuts)
+            p2 = reach(fn, [0], targets, cuts, dead_k)
             ctx.record("baseline-order", "R9", k, "%s: %s succeeds before %s" % (short(k, 2), a, bk), "violation", [where],
                        ["on the confirmed tree every path to %s passed a successful %s; now a path reaches it without" % (bk, a)] + (path_locs(fn, p2) if p2 else []),
                        key_detail="order:%s>%s" % (a, bk))
@@ -721,10 +776,17 @@ def check(ctx, prop):
                            ["argument %d no longer derives from %s (now from %s)" % (i, d, cur_alt[i][:8]) for i, d in enumerate(best) if d],
                            key_detail="args:" + bc)
         # ---- guards
+        parent = roles.get(role.split("@")[0]) if b.get("closure") else None
         for g in b.get("guards", []):
             n["guards"] += 1
             if _guard_present(ctx, cs, k, g, closures, helpers):
                 continue
+            if parent and parent != k:
+                # closures are addressed by the adaptor call that receives them; when that call was rewritten the role may now name a
+                # different closure: the test has to exist somewhere in the parent function or its closures
+                pcl, phl = _cluster(F, parent)
+                if _guard_present(ctx, cs, parent, g, pcl, phl, relaxed=True):
+                    continue
             bad += 1
             ctx.record("baseline-guard", "R9", k, "%s: branch condition %s(%s ; %s) is present" % (short(k, 2), g[0], ",".join(g[1])[:80], ",".join(g[2])[:80]), "violation", [where],
                        ["on the confirmed tree %s branched on %s(%s ; %s); no branch with this operator and these operand origins remains (guard removed, weakened or its operands re-sourced)"
